@@ -666,6 +666,15 @@ static void gen_C18(const std::string &tier, uint64_t seed, long idx, Scn &s) {
   s.prop = "C18"; s.tier = tier; s.seed = seed; s.index = idx;
   Rng g(Rng::mix(seed, 0xC18, (uint64_t)idx));
   fill_base(g, s, 4);
+  if (!is_prod() && idx % 8 == 5) {   // the command-line path: seed = 256 rand() bytes drawn from the (simulated) clock
+    s.i["cli"] = 1;
+    s.i["cm"] = 1 + (long)g.below(4);
+    s.i["len"] = (long)g.below(3 * CHB() + 1);
+    s.i["t1"] = 1600000000 + (long)g.below(200000000);
+    s.i["t2"] = s.i["t1"] + 1 + (long)g.below(100000);
+    s.i["ss0"] = (long)(g.next() >> 2);
+    return;
+  }
   int T = is_prod() ? 2 : (g.chance(0.6) ? (int)g.range(2, 6) : (int)g.range(7, 16));   // every thread count: the IV table has one slot per worker
   s.i["T"] = T;
   s.i["cm"] = 1 + (long)g.below(4);
@@ -690,6 +699,7 @@ static void gen_C18(const std::string &tier, uint64_t seed, long idx, Scn &s) {
 }
 
 static Verdict run_C18(const Scn &s) {
+  if (s.geti("cli")) return run_C18_cli(s);
   int T = (int)s.geti("T");
   long len = s.geti("len");
   int cm = (int)s.geti("cm");
